@@ -98,7 +98,7 @@ for p in props:
             "evidence_file": f"/verif/evidence/{pid}.json",
             "replay_cmd_template": f"./check {pid} --replay {{path}}",
             "engine": "mc",
-            "level_claimed": {"category": "model_checking", "text": text, "design_ref": ref},
+            "level_claimed": {"category": "model_checking", "text": text + " Families added in later rounds (each seeded change that was missed at first named one) are not all spelled out here: the complete list of the families enumerated, with alphabets and bounds written by the enumerating code itself, is in the evidence file (coverage.families) and in DESIGN.md section 12.4; findings recorded rather than repaired are in known_findings.json and DESIGN.md section 13.", "design_ref": ref},
             "level_note": note,
             "technique": tech,
         })
